@@ -12,1013 +12,1116 @@ Definition show_fres (r : fres) : string :=
   end.
 Definition check (rs : list rune) : string := digest (show_fres (format_res rs)).
 Definition full (rs : list rune) : string := show_fres (format_res rs).
-Eval vm_compute in ("<<<M1861>>>" ++ check (runes_of_ascii "// top
-  options// c0a
-	// c0b
-    {  // c1a
-    	// c1b
-	ArrayPrefixLenType// c2
-
-=  
-  // c3
-
-  u64 
-; 	 // c5
-      FixedStringPadFromLeft  // c6
-  	= 
-      // c7
-	  true;  FixedStringPadChar// c10a
-
-  // c10b
-=  // c11a
-	// c11b
-  '0' ;
-    // c13
-    	}
-    // c14
-  	packet 
-// c15
-	Quote
-    // c16
-    	{ }	// c18a
-
-// c18b
-	  packet
-Ack	// c20
-
-  {
-repeat
-// c22
-    InNote66 // c23
-{	u8 
-        // c25
-	  pad0  
-      // c26
-,
-// c27
-    	},// c29
-  }
-
-    packet  // c31a
-// c31b
-  Reject	{ // c33a
-	// c33b
+Eval vm_compute in ("<<<M1637>>>" ++ check (runes_of_ascii "options {
+    matchKey = true;
+    packetx = uint32;
+    metadata = int64;
+    Packet = float64
+    _x = """ ++ [233]%N ++ runes_of_ascii "t" ++ [233]%N ++ runes_of_ascii """
 }
 
-// c34
-    	root  // c35
-packet// c36a
-// c36b
-	Order // c37
-    { // c38
-    	Quote 	 // c39
-
-	,  
-  // c40
-    repeat Reject  // c42a
-
-// c42b
-    	,// c43
-	  string venue 	 // c45
-	,
-    // c46
-string	// c47
-  seqNo
-        // c48
-	,
-    uint32// c50a
-	// c50b
-Ref 
-  // c51
-	,// c52
-	  u16// c53
-    lastPx	// c54a
-	// c54b
-  	,
-u32
-
-clOrdID @lengthOf(
-Body // c59a
-// c59b
-    	)// c60
-	,  // c61a
-    // c61b
-  match lastPx
-    // c63
-
-as 
-    // c64
-
-Body 	 // c65
-    { 
-    // c66
-  190 :
-    Reject// c69a
-  // c69b
-  ,  // c70
-	186 
-      // c71
-  :
-// c72
-
-Quote 
-        // c73
-  , // c74
-		22 // c75
-
-: 	 // c76
-Ack , 
-      // c78
-
-} 
-    // c79
-	,
-u16  // c81a
-  // c81b
-		Flags// c82a
-
-  // c82b
-
-@calculatedFrom(
-        // c83
-
-  ""CRC32""
-        // c84
-  ) ,	// c86
-	} 
-    // c87
-")).
-Eval vm_compute in ("<<<M231>>>" ++ check (runes_of_ascii "root packet
-    metadata {  @lengthOf(
-options1
-) int32 zchar @calculatedFrom(""// no comment"" ) `
-` , repeat calculatedFrom `it's`, //
-match
-    BodyLength as lengthOf
-{ 3 /// triple
-:	leftPad , }, repeat
-u128, char[ 10
-] chars  ,// @lengthOf(
-falsey
-@calculatedFrom( ""x y"") // c
-`{ , }` ,	@tag(42
-)	float64
-    i64_
-    // packet A { u8 x, }
-    , u8x@calculatedFrom(  ""{,}"" ) `two words`
-//	t
-// trailing space 
-, @lengthOf(T)
-char[	255]  pack `it's`
-,match MetaDataX
-as i64_{
-    //
-    """ ++ [28040; 24687]%N ++ runes_of_ascii """ // @lengthOf(
-:Header , 0
-    //
-    : x_y_z 3 : // `tick` ""quote"" 'q'
-int""abc""
-    // @lengthOf(
-    : u8x ,
-    } , } packet i64_
-{@rightPad ( ) /// triple
-pack {
-match MetaDataX
-    as trueish { 1 // @lengthOf(
-:
-    len
-00	: falsey // packet A { u8 x, }
-,"""" :
-x ,
-}, } , @tag(1) char[]int @lengthOf(	metadata
-) // packet A { u8 x, }
-, a1 @lengthOf( calculatedFrom ) ,
-    @tag( 7
-    )tag@lengthOf(u ) , BodyLength /// triple
-@calculatedFrom( ""it's""
-) `say ""hi""` ,string
-msg_type ,
-    }
-    MetaData
-    Logon { BodyLength
-_x `it's` , int32 body ,
-    // trailing space 
-    } root	packet body{  }
-")).
-Eval vm_compute in ("<<<M17>>>" ++ check (runes_of_ascii "
-MetaData
-    x{ len
-    crc , float
-    // " ++ [128512]%N ++ runes_of_ascii " emoji
-    asx, i32 uint8x`line1
-line2` ,u16
-tag
-// `tick` ""quote"" 'q'
-//x
-`it's` , As string_
-    ,
-}
-packet metadata {@lengthOf(zchar )// c
-i64_ @calculatedFrom(
-""\" ++ [233]%N ++ runes_of_ascii """	) , //x
-@leftPad
-    ( '\x00' ) zchar[ 10
-] zchar
-    ,
-    lengthOf //x
-string_ ,int @lengthOf( pack
-    ),
-    zchar[ 00 ]
-    Foo , @lengthOf( packetx )
-    @leftPad (
-'\x00'// " ++ [27880; 37322]%N ++ runes_of_ascii "
-) @calculatedFrom(
-    // @lengthOf(
-    ""x y"" )uint16
-len@calculatedFrom( """" )
-`two words` , int8
-    metadata @lengthOf( Foo )`two words`	, // @lengthOf(
-}options
-{ }
-packet
-pack{
-// `tick` ""quote"" 'q'
-//
-f64
-    o , T BodyLength  ,
-    repeat
-    uint8 chars  `" ++ [233]%N ++ runes_of_ascii "`
-    ,repeat
-    // c
-    Logon
-u
-    // " ++ [128512]%N ++ runes_of_ascii " emoji
-    ,@tag(
-    0123456789 )
-char[] repeatCount @lengthOf(// " ++ [27880; 37322]%N ++ runes_of_ascii "
-_x )
-    // c
-    `
-` ,//
-@tag(
-// packet A { u8 x, }
-/// triple
-7 )  repeatCount @calculatedFrom(""packet"" ) `{ , }` , }")).
-Eval vm_compute in ("<<<M1321>>>" ++ check (runes_of_ascii "// top
-packet // c0
-P1
-    // c1
-{ // c2
-u8
-    // c3
-a // c4a
-  // c4b
-,
-    // c5
-} // c6
-packet
-    // c7
-P2 // c8
-{ // c9a
-  // c9b
-P1 // c10
-, } // c12a
-  // c12b
-packet // c13a
-  // c13b
-P3
-    // c14
-{
-    // c15
-P2
-    // c16
-, // c17
-P1 , // c19
-} // c20a
-  // c20b
-packet // c21
-P4 // c22
-{ // c23
-repeat // c24a
-  // c24b
-P3
-    // c25
-, P2 , } root // c30a
-  // c30b
-packet // c31
-P5 { // c33
-P4
-    // c34
-,
-    // c35
-P3 // c36a
-  // c36b
-, P1
-    // c38
-,
-    // c39
-u8 K // c41
-, // c42
-match // c43
-K // c44a
-  // c44b
-as
-    // c45
-Body // c46a
-  // c46b
-{ // c47a
-  // c47b
-4 : // c49a
-  // c49b
-P4 // c50
-, // c51
-3 :
-    // c53
-P3 // c54a
-  // c54b
-, // c55a
-  // c55b
-2 // c56a
-  // c56b
-:
-    // c57
-P2 ,
-    // c59
-1 : // c61a
-  // c61b
-P1 // c62
-, // c63a
-  // c63b
-}
-    // c64
-, }
-    // c66
-")).
-Eval vm_compute in ("<<<M1456>>>" ++ check (runes_of_ascii "packet float {
-    char[] u8x @lengthOf(roots),
-}
-
-MetaData leftPad {
-    string a1,
-}
-
-root packet pack {
-    falsey,
-    /// triple
-    match Logon as trueish {
-        ""packet"" : Foo,
-        """" : len,
-        0123456789 : i64_,
-        ""it's"" : packetx,
-        255 : len,
+root packet asx {
+    @rightPad('\x00')
+    @calculatedFrom("""")
+    @tag(4294967296)
+    msg_type {
+        repeat zchar[65535] charz `{ , }`,
+        char roots,
+        T {
+            rootA len,
+        },
+        repeat u128 `u8 x,`,
     },
-    repeat As As `" ++ [233]%N ++ runes_of_ascii "`,
-    @tag(3)
-    uint32 a1,
-    repeat zchar[4294967296] pack,
-    @leftPad(' ')
-    zchar @lengthOf(string_) `// not a comment`,
-    repeat int,
-    repeat i8i8 {
-        u64 tag `say ""hi""`,
-        u8x,
-        char trueish,
-        repeat float32 stringy `line1
-                line2`,
-    },
-    match o as o {
-        007 : float,
-    },
-    // packet A { u8 x, }
+}
+
+root packet MetaDataX {
     // c
-    repeat Pad,
-    // " ++ [27880; 37322]%N ++ runes_of_ascii "
-    // trailing space 
-}")).
-Eval vm_compute in ("<<<M1793>>>" ++ check (runes_of_ascii "// `tick` ""quote"" 'q'
-packet As {
+    char[4294967296] Z9_,
+    lengthOf rootA `{ , }`,
     @rightPad('0')
-    stringy @lengthOf(calculatedFrom),
-    @tag(10)
-    string uint8x `
-    `,
-    match body as uint8x {
-        ""it's"" : rootA,
-        [00] : leftPad,
-        42 : MetaDataX,
-        ""a	b"" : calculatedFrom,
-        255 : trueish,
+    zchar[00] i8i8,
+    char[1] a1,
+    // c
+    float32 crc `
+        `,
+    Z9_ {
+        f32a {
+            float32 len,
+            f32a {
+                char[0] pack @calculatedFrom(""it's""),
+                T @lengthOf(f32a),
+                i64 lengthOf @calculatedFrom(""x y""),
+                zchar[4294967296] As @calculatedFrom(""x y""),
+            },
+        },
+        repeat calculatedFrom {
+            repeat Packet {
+                x,
+            },
+        },
+        u8x {
+            metadata @calculatedFrom(""1""),
+            repeat zchar[65535] Z9_,
+            // " ++ [128512]%N ++ runes_of_ascii " emoji
+            // a // b
+        },
+        match As as repeatCount {
+            65535 : roots,
+            ""packet"" : uint8x,
+            3 : A,
+            ""{,}"" : leftPad,
+        },
     },
-    repeat i64 Logon `tab	here`,
+    @calculatedFrom(""// no comment"")
+    repeat stringy asx,
+    char[] MetaDataX @lengthOf(A),
+    @rightPad('0')
+    @leftPad(' ')
+    Z9_ @calculatedFrom(""a\""b""),
+    match o as repeatCount {
+        [3, 0123456789] : string_,
+        4294967296 : Logon,
+        7 : o,
+    },
+}
+
+packet body {
+}")).
+Eval vm_compute in ("<<<M378>>>" ++ check (runes_of_ascii "options {
+	StringPrefixLenType = u16;
+	ArrayPrefixLenType = u16;
+}
+
+packet SampleBinary {
+    uint16 MsgType `" ++ [28040; 24687; 31867; 22411]%N ++ runes_of_ascii "`,
+    u16 BodyLenght @lengthOf(Body) `" ++ [28040; 24687; 20307; 38271; 24230]%N ++ runes_of_ascii "`,
+    match MsgType as Body {
+        1 : Logon,
+        2 : Logout,
+        3 : Heartbeat,
+        4 : RiskControlRequest,
+        5 : RiskControlResponse,
+    },
+        @calculatedFrom(""CRC32"")
+    u32 Ckecksum `" ++ [26657; 39564; 21644]%N ++ runes_of_ascii "`,
+}
+
+packet Logon {
+     @leftPad('0')
+    char[10] UserName `" ++ [29992; 25143; 21517]%N ++ runes_of_ascii "`,
+    string Password `" ++ [23494; 30721]%N ++ runes_of_ascii "`,
+    uint64 ClientId `" ++ [23458; 25143; 31471]%N ++ runes_of_ascii "ID`,
+    u16 HeartbeatInterval `" ++ [24515; 36339; 38388; 38548]%N ++ runes_of_ascii "`,
+}
+
+packet Logout {
+      @rightPad('0')
+    char[10] UserName `" ++ [29992; 25143; 21517]%N ++ runes_of_ascii "`,
+    uint64 ClientId `" ++ [23458; 25143; 31471]%N ++ runes_of_ascii "ID`,
+}
+
+packet Heartbeat {
+}
+
+packet RiskControlRequest {
+    string UniqueOrderId `" ++ [21807; 19968; 35746; 21333; 21495]%N ++ runes_of_ascii "`,
+    char[16] ClOrdID `" ++ [23458; 25143; 35746; 21333; 21495]%N ++ runes_of_ascii "`,
+    char[3] MarketID `" ++ [24066; 22330]%N ++ runes_of_ascii "id`,
+    char[12] SecurityID `" ++ [35777; 21048; 20195; 30721]%N ++ runes_of_ascii "`,
+    char Side `" ++ [20080; 21334; 26041; 21521]%N ++ runes_of_ascii "`,
+    char OrderType `" ++ [35746; 21333; 31867; 22411]%N ++ runes_of_ascii "`,
+    u64 Price `" ++ [20215; 26684]%N ++ runes_of_ascii "`,
+    u32 Qty `" ++ [25968; 37327]%N ++ runes_of_ascii "`,
+    repeat string ExtraInfo `" ++ [38468; 21152; 20449; 24687]%N ++ runes_of_ascii "`,
+    repeat SubOrder {
+    		char[16] ClOrdID `" ++ [23376; 35746; 21333; 21495]%N ++ runes_of_ascii "`,
+    		u64 Price `" ++ [23376; 35746; 21333; 20215; 26684]%N ++ runes_of_ascii "`,
+    		u32 Qty `" ++ [23376; 35746; 21333; 25968; 37327]%N ++ runes_of_ascii "`,
+    	},
+}
+
+packet RiskControlResponse {
+    string UniqueOrderId `" ++ [21807; 19968; 35746; 21333; 21495]%N ++ runes_of_ascii "`,
+    i32 Status `" ++ [29366; 24577]%N ++ runes_of_ascii "`,
+    string Msg `" ++ [32467; 26524; 20449; 24687]%N ++ runes_of_ascii "`,
+    repeat Detail,
+}
+
+packet Detail {
+    string RuleName `" ++ [35268; 21017; 21517; 31216]%N ++ runes_of_ascii "`,
+    u16 Code `" ++ [21407; 22240; 20195; 30721]%N ++ runes_of_ascii "`,
+}")).
+Eval vm_compute in ("<<<M1366>>>" ++ check (runes_of_ascii "options {
+    LittleEndian = true;
+    StringPrefixLenType = u16;
+    ArrayPrefixLenType = u8;
+    FixedStringPadChar = ' ';
+}
+packet Ack {
+    @leftPad(' ') char[5] lastPx,
+    zchar[4] count,
+    repeat InVenue30 {
+        char[9] Side2,
+        char[12] venue,
+    },
+}
+packet Order {
+    int16 Note,
+    repeat InAcct28 {
+        InSym3 {
+            Ack,
+            char[4] lastPx,
+            char[1] venue,
+            f32 Ref,
+        },
+        repeat InTag729 {
+            char[3] Side2,
+            uint64 Acct,
+            char[] price,
+            zchar[9] Note,
+            zchar[9] venue,
+        },
+        char[] count,
+        Ack,
+        char[] Px,
+    },
+    u8 f1,
+    Ack,
+}
+packet Fill {
+    zchar[7] x,
+    Order,
+    @leftPad(' ') char[9] venue,
+    string count,
+    char[] Flags,
+}
+packet Logon {
+}
+packet Reject {
+    Order,
+    char[] sym,
+}
+root packet Quote {
+    string price,
+    i64 Flags,
+    repeat Fill,
+    zchar[9] x,
+    f32 lastPx,
+    repeat Ack,
+}
+")).
+Eval vm_compute in ("<<<M1361>>>" ++ check (runes_of_ascii "// top
+options
+    // c0
+{ LittleEndian // c2a
+  // c2b
+= // c3
+true // c4
+;
+    // c5
+StringPrefixLenType =
+    // c7
+u16 // c8
+; // c9a
+  // c9b
+ArrayPrefixLenType = u16 // c12a
+  // c12b
+;
+    // c13
+FixedStringPadFromLeft // c14
+= // c15a
+  // c15b
+true
+    // c16
+; // c17a
+  // c17b
+FixedStringPadChar = // c19
+'0' // c20
+; // c21
+}
+    // c22
+packet
+    // c23
+Leg { // c25a
+  // c25b
+u16 // c26
+Flags // c27
+,
+    // c28
+u8 price , } // c32
+packet
+    // c33
+Quote // c34a
+  // c34b
+{ uint16
+    // c36
+count
+    // c37
+, // c38
+InNote89 // c39a
+  // c39b
+{ repeat Leg // c42a
+  // c42b
+, // c43a
+  // c43b
+}
+    // c44
+, } root // c47
+packet // c48a
+  // c48b
+Ack // c49a
+  // c49b
+{
+    // c50
+char[ 3 ]
+    // c53
+price // c54a
+  // c54b
+, // c55
+u64 sym ,
+    // c58
+zchar[ // c59
+1 // c60a
+  // c60b
+] // c61
+Tail // c62a
+  // c62b
+, // c63
+} // c64a
+  // c64b
+")).
+Eval vm_compute in ("<<<M116>>>" ++ check (runes_of_ascii "packet crc {uint16
+    // " ++ [128512]%N ++ runes_of_ascii " emoji
+    MetaDataX @calculatedFrom( ""{,}""
+)	`two words`
+, @tag( 3
+    //x
+    )repeat roots { repeat string	f32a ,	} , @tag(	42 )
+char[]//
+a1  `" ++ [28040; 24687; 31867; 22411]%N ++ runes_of_ascii "` ,@calculatedFrom(// a // b
+""packet"" // trailing space 
+) i16
+    // trailing space 
+    float
+    `tab	here` , match metadata as Logon	{
+    """"
+    :u , 42: MetaDataX
+255:
+roots,[ 3 ,10
+//
+// `tick` ""quote"" 'q'
+]: _x 4294967296 :
+chars
+10 // " ++ [128512]%N ++ runes_of_ascii " emoji
+: uint8x , }
+,
+@lengthOf(  trueish )
+    repeat char[// 50% %s
+007] roots ,}  options { roots  = int32 ; } root packet Logon
+    { // packet A { u8 x, }
+@leftPad
+( '\x00')asx @calculatedFrom(
+    ""// no comment"" ) `{ , }`
+    , }
+MetaData
+    Packet {
+    i32
+// " ++ [128512]%N ++ runes_of_ascii " emoji
+//
+trueish `100% of %d`, }")).
+Eval vm_compute in ("<<<M1501>>>" ++ check (runes_of_ascii "packet crc {
+    uint16 MetaDataX @calculatedFrom(""{,}"") `two words`,
+    @tag(3)
+    repeat roots {
+        repeat string f32a,
+    },
+    @tag(42)
+    char[] a1 `" ++ [28040; 24687; 31867; 22411]%N ++ runes_of_ascii "`,
+    @calculatedFrom(""packet"")
+    i16 float `tab	here`,
+    match metadata as Logon {
+        """" : u,
+        42 : MetaDataX,
+        255 : roots,
+        [3, 10] : _x,
+        4294967296 : chars,
+        10 : uint8x,
+    },
+    @lengthOf(trueish)
+    repeat char[007] roots,
 }
 
 options {
-    crc = '\x00';
+    roots = int32;
 }
 
-packet x {
-    @calculatedFrom(""a\\"")
-    @tag(42)
-    @leftPad('0')
-    match o as x_y_z {
-        // packet A { u8 x, }
-        [
-            """ ++ [128512]%N ++ runes_of_ascii """, ""x y"", 0123456789, ""CRC32"", ""it's"",
-            007, 3, 007
-        ] : Packet,
-        // c
-        [255, ""x y""] : x_y_z,
-    },
-}
-// trailing space ")).
-Eval vm_compute in ("<<<M1712>>>" ++ check (runes_of_ascii "// a // b
-packet stringy {
-    @tag(3)
-    // trailing space 
-    i64 len,
-    @calculatedFrom(""1"")
-    char[0] x @lengthOf(Foo),
-    @calculatedFrom("""")
-    body @lengthOf(calculatedFrom) `line1
-        line2`,
-    @calculatedFrom(""it's"")
+root packet Logon {
     // packet A { u8 x, }
-    match falsey as u8x {
-        [""" ++ [128512]%N ++ runes_of_ascii """, 42, 1, 10] : Header,
-    },
-    // trailing space 
-    // `tick` ""quote"" 'q'
+    @leftPad('\x00')
+    asx @calculatedFrom(""// no comment"") `{ , }`,
 }
 
-MetaData stringy {
-    f32a u128 `{ , }`,
-    char[10] u128,
-    chars _x,
-    zchar[65535] falsey `{ , }`,
-    _x i64_,
-    int32 Packet `crlf
-        line`,
-}
-
-MetaData lengthOf {
-}
-// trailing space ")).
-Eval vm_compute in ("<<<M64>>>" ++ check (runes_of_ascii "
-MetaData //	t
-body { T
-    calculatedFrom, string f32a `line1
-line2`, leftPad BodyLength
-`tab	here` ,
-}options {
-}
-MetaData
-    options1	{
-char[ 3 ] MetaDataX
-// " ++ [128512]%N ++ runes_of_ascii " emoji
-/// triple
-`" ++ [28040; 24687; 31867; 22411]%N ++ runes_of_ascii "` ,  BodyLength x	`
-`,u16 tag	`say ""hi""`, u8
-float ,float32 As `
-`
-    ,
-    i8i8 Z9_ `
-`, } packet u { @tag( 42
-) options1 // c
-o `crlf
-line` ,@calculatedFrom( ""`tick`""
-// packet A { u8 x, }
-// a // b
-) repeat
-    char[]	a1
-    //x
-    ,	} options
-    { uint8x=
-true
-    A
-= // `tick` ""quote"" 'q'
-7 ; // packet A { u8 x, }
-len=	""" ++ [128512]%N ++ runes_of_ascii """
-    }")).
-Eval vm_compute in ("<<<M340>>>" ++ check (runes_of_ascii "packet leftPad//
-{@rightPad () repeat chars	{crc /// triple
-pack  ,
-} ,
-@calculatedFrom( """ ++ [28040; 24687]%N ++ runes_of_ascii """ )@lengthOf(options1  )@tag( 65535 ) Foo,match
-matchKey
-    as // " ++ [128512]%N ++ runes_of_ascii " emoji
-tag	{
-    // c
-    [ ""{,}"",
-""""
-, ""`tick`"" ,
-3 ,""it's"",  """ ++ [128512]%N ++ runes_of_ascii """	,
-""it's""] :As
-    , [
-/// triple
-//	t
-""x y""]
-    //x
-    :
-chars,""" ++ [233]%N ++ runes_of_ascii "t" ++ [233]%N ++ runes_of_ascii """	:uint8x,4294967296:	packetx
-""// no comment""
-:
-calculatedFrom , }
-,  @calculatedFrom( ""// no comment""// @lengthOf(
-)
-char[// trailing space 
-007 ]	f32a ,} // a // b")).
-Eval vm_compute in ("<<<M1863>>>" ++ check (runes_of_ascii "
-
-  // top
-  packet	// c0
-  	B // c1
-  {	// c2
-u8	// c3
-    	a  ,  // c5a
-  	// c5b
-	}	// c6
-
-root	// c7
-
-packet	P// c9a
-    	// c9b
-  { // c10a
-// c10b
-  u8 // c11
-    K 
-,	// c13a
-  // c13b
-
-match  K  // c15a
-// c15b
-      as// c16a
-	  // c16b
-
-  Body {	// c18
-1
-
-    :
-	// c20
-
-  B
-	,  } 
-// c23
-    	,  // c24a
-  // c24b
-	u16 // c25a
-  // c25b
-
-L 	 // c26
-
-@lengthOf(
-
-    Body
-	    // c28
-
-) 
-  // c29
-
-  , 
-    // c30
-  } ")).
-Eval vm_compute in ("<<<M101>>>" ++ check (runes_of_ascii "MetaData T {  a1 Packet,// " ++ [128512]%N ++ runes_of_ascii " emoji
-uint8x
-// @lengthOf(
-//x
-Pad `" ++ [233]%N ++ runes_of_ascii "` , a1
-    // " ++ [27880; 37322]%N ++ runes_of_ascii "
-    MetaDataX ,	zchar[00]metadata`u8 x,` ,Pad// trailing space 
-x `
-` ,
-    i8
-u8x ,
-}  options { As =
-    false;}root packet options1 { @calculatedFrom( ""// no comment"" ) @lengthOf( _x	)
-    @tag(007 ) repeat
-// trailing space 
-// @lengthOf(
-f32 i8i8
-    `" ++ [233]%N ++ runes_of_ascii "` ,
-    @rightPad	( ' '// " ++ [27880; 37322]%N ++ runes_of_ascii "
-) repeat Pad , }
-")).
-Eval vm_compute in ("<<<M236>>>" ++ check (runes_of_ascii "packet metadata{ //	t
-float64	body
-    @lengthOf( calculatedFrom ) , // a // b
-@tag(42
-    ) rootA ,
-    x_y_z u8x`// not a comment`
-    ,  @lengthOf(Pad)  match // " ++ [27880; 37322]%N ++ runes_of_ascii "
-packetx  as leftPad
-    {
-    //
-    65535 : tag ,
-""" ++ [128512]%N ++ runes_of_ascii """ :_x} , x_y_z  metadata , @tag(7 )int64 zchar @lengthOf(
-repeatCount ) `" ++ [233]%N ++ runes_of_ascii "`,@tag( 0123456789 ) repeat float chars ,	f32  MetaDataX
-,}")).
-Eval vm_compute in ("<<<M1529>>>" ++ check (runes_of_ascii "packet a1 {
-    @leftPad()
-    float @lengthOf(uint8x),
-}
-
-packet Logon {
-    char Logon @calculatedFrom(""a\\""),
-    T stringy,
-    //
-    // c
-    repeat uint8 stringy `two words`,
-}
-
-MetaData charz {
-    u tag `
-        `,
-    a1 falsey,//x
-    Z9_ matchKey,
-    f64 lengthOf `a\`,
-    f32a roots ``,
-    float64 x_y_z,
+MetaData Packet {
+    i32 trueish `100% of %d`,
 }")).
-Eval vm_compute in ("<<<M32>>>" ++ check (runes_of_ascii "packet int { T/// triple
-{ repeat _x ,	} ,
-    i64_ _x
-    `
-`, @calculatedFrom( ""x y"" )u32 A
-,  match a1 as
-    i8i8 { [ ""1""
-,
-4294967296
-]:
-    a1 ,"""":	a1
-    , 007: a1 , [ ""CRC32"" ] :Header} , int64 As, int8 a1 , //
-char[] float
-`tab	here`/// triple
-,
-repeat zchar[ 1	]u8x,
-} /// triple")).
-Eval vm_compute in ("<<<M177>>>" ++ check (runes_of_ascii "root
-packet Logon {
-    @rightPad
-(// @lengthOf(
-'0' ) repeat
-    charz // " ++ [27880; 37322]%N ++ runes_of_ascii "
-{// " ++ [128512]%N ++ runes_of_ascii " emoji
-Z9_ `{ , }` , string string_ `say ""hi""` , repeat int8  rootA ,	match Foo	as
-pack {
-[ 42
-// c
-/// triple
-, 0 ] :u, ""a\""b"" : int
-,
-}
-// c
-// `tick` ""quote"" 'q'
-,
-} , }")).
-Eval vm_compute in ("<<<M183>>>" ++ check (runes_of_ascii "root
-packet tag {
-@calculatedFrom(
-""{,}""
-    // `tick` ""quote"" 'q'
-    )
-@tag(
-//x
-// " ++ [27880; 37322]%N ++ runes_of_ascii "
-42
-    )
-    i64_ @lengthOf( calculatedFrom ) , zchar[// " ++ [128512]%N ++ runes_of_ascii " emoji
-3 // @lengthOf(
-] int  , } root// c
-packet Foo { }
-// @lengthOf(
-")).
-Eval vm_compute in ("<<<M1616>>>" ++ check (runes_of_ascii "options {
-    FixedStringPadChar = '0';
-}
-
-packet Q {
-    zchar[4] z,
-    @rightPad('\x00')
-    char[3] n,
-    char[5] d,
-}
-
-root packet R {
-    Q,
-    zchar[8] top,
-    repeat zchar[2] zs,
-}")).
-Eval vm_compute in ("<<<M1281>>>" ++ check (runes_of_ascii "// top
-root // c0a
-  // c0b
-packet P {
-    // c3
-u16
-    // c4
-a
-    // c5
-,
-    // c6
-u32 // c7a
-  // c7b
-Sum // c8
-@calculatedFrom( // c9a
-  // c9b
-""CRC32"" ) , } // c13
-")).
-Eval vm_compute in ("<<<M355>>>" ++ check (runes_of_ascii "options  { As = true
-    MetaDataX =true	}	packet A { repeat calculatedFrom `say ""hi""`
-    ,} MetaData crc { u crc ,
-    uint32 body , i16 stringy
-`u8 x,`
-, }
-")).
-Eval vm_compute in ("<<<M508>>>" ++ check (runes_of_ascii "packet uint8x
-{ match pack
-    as msg_type	{
-    0123456789 :	float
-}
-,
-} packet //	t
-a1
-    { } options {packetx
-    = '\x00'	int16 u128= ""a	b""  ; }
-")).
-Eval vm_compute in ("<<<M544>>>" ++ check (runes_of_ascii "packet uint8x
-{ match pack
-    as msg_type	{
-    0123456789 :	float
-}
-,
-} packet //	t
-a1
-    { } options {packetx
-    = " ++ [65279]%N ++ runes_of_ascii " '\x00'	; u128= ""a	b""  ; }
-")).
-Eval vm_compute in ("<<<M447>>>" ++ check (runes_of_ascii "packet uint8x
-{ match pack
-    as msg_type	{
-    0123456789 :	float
-,
-}
-} packet //	t
-a1
-    { } options {packetx
-    = '\x00'	; u128= ""a	b""  ; }
-")).
-Eval vm_compute in ("<<<M485>>>" ++ check (runes_of_ascii "packet uint8x
-{ match pack
-    as msg_type	{
-    0123456789 :	float
-}
-,
-} packet //	t
-a1
-    { } options packetx
-    = '\x00'	; u128= ""a	b""  ; }
-")).
-Eval vm_compute in ("<<<M667>>>" ++ check (runes_of_ascii "// @lengthOf(
-packet i8i8 { u128 o char }
-options { MetaDataX = true;
-    BodyLength =""packet"" x_y_z= 007
-crc //x
-= ""abc"" ;
-    msg_type =
-i16 }")).
-Eval vm_compute in ("<<<M1424>>>" ++ check (runes_of_ascii "  packet B {
-u8
-	a , }
-
-    root  packet P
+Eval vm_compute in ("<<<M1136>>>" ++ check (runes_of_ascii "// top
+packet
+    // c0
+_x
+    // c1
 {
-    u8
-K
+    // c2
+match
+    // c3
+Foo
+    // c4
+as
+    // c5
+Z9_
+    // c6
+{
+    // c7
+""a	b""
+    // c8
+:
+    // c9
+Pad
+    // c10
+,
+    // c11
+}
+    // c12
+,
+    // c13
+repeat
+    // c14
+x
+    // c15
+`// not a comment`
+    // c16
+,
+    // c17
+@rightPad
+    // c18
+(
+    // c19
+' '
+    // c20
+)
+    // c21
+@calculatedFrom(
+    // c22
+""a\\""
+    // c23
+)
+    // c24
+metadata
+    // c25
+MetaDataX
+    // c26
+,
+    // c27
+@tag(
+    // c28
+0
+    // c29
+)
+    // c30
+Logon
+    // c31
+int
+    // c32
+`two words`
+    // c33
+,
+    // c34
+}
+    // c35
+")).
+Eval vm_compute in ("<<<M1508>>>" ++ check (runes_of_ascii "
+// @lengthOf(
+packet
+Pad{ string_
+
+    @calculatedFrom( """ ++ [128512]%N ++ runes_of_ascii """) , 
+	//	t
+  // c
+	char[	255 ]	metadata	@calculatedFrom(
+""1"") 
+	    // trailing space 
+  // 50% %s
+  `line1
+line2`
+
+,@rightPad
+
+    ( '0')@lengthOf(metadata)@tag(007 ) repeat char[ 0
+
+    ] MetaDataX
+    , uint8x
 
 ,
-u64 L
+
+    @tag(
+
+    0
+)  f32	uint8x
 
     @lengthOf(
-Body) 
-,  match K as
 
-    Body 
-{  1 
-:B
+    roots
+), repeat
+Packet 
+
+    //x
+  // " ++ [27880; 37322]%N ++ runes_of_ascii "
+  	, MetaDataX`line1
+line2`,
+
+    @lengthOf(int 
+)
+	string
+len  `// not a comment` ,
+    char[ 
+3// c
+  	]
+Pad , // " ++ [27880; 37322]%N ++ runes_of_ascii "
+	}")).
+Eval vm_compute in ("<<<M268>>>" ++ check (runes_of_ascii "packet x_y_z {repeat
+asx { falsey	@lengthOf( u )`100% of %d`
+    ,repeat
+matchKey { x_y_z@calculatedFrom(""a\\""
+// trailing space 
+// trailing space 
+)
+, i64
+// 50% %s
+//
+calculatedFrom @calculatedFrom( ""// no comment"" )  `{ , }` , }// 50% %s
 ,
-    }	,
-    } ")).
-Eval vm_compute in ("<<<M1434>>>" ++ check (runes_of_ascii "packet A {
-    u16 len @lengthOf(body) `a
-        
-        b`,
-    u32 crc @calculatedFrom(""CRC32"") `a
-        
-        b`,
-    string body,
-}")).
-Eval vm_compute in ("<<<M1829>>>" ++ check (runes_of_ascii "
-packet  A
-{match
-	k as
-	n
-{[	1	, 22
-    ,  ""c c""  ,
-4 ,
-
-5
-    , ""f"" 
-, 7
-, 
-8 ,
-""i"" ,
-10 ,11
-,
-    ""l""
-
-] :B
-	, 
-2
-
-: C
-}
-, 
-} ")).
-Eval vm_compute in ("<<<M304>>>" ++ check (runes_of_ascii "packet
-    // " ++ [27880; 37322]%N ++ runes_of_ascii "
-    Logon {
-repeatCount @lengthOf( roots ) , @tag(0) repeat zchar[007] crc , rootA a1 `{ , }` , string_ `" ++ [233]%N ++ runes_of_ascii "`
-,  }
+// c
+//	t
+char[ // 50% %s
+007 ] Foo @calculatedFrom( ""abc""
+), }
+    , repeat
+    uint32 Pad, repeat Logon
+{
+Logon
+    {
+    char[] packetx @calculatedFrom(
+// " ++ [128512]%N ++ runes_of_ascii " emoji
+// `tick` ""quote"" 'q'
+""it's"" )
+`
+` ,
+}, i8 len, asx , } , }
 ")).
-Eval vm_compute in ("<<<M1720>>>" ++ check (runes_of_ascii "
-packet	A	{
+Eval vm_compute in ("<<<M1132>>>" ++ check (runes_of_ascii "// top
+packet // c0
+float // c1
+{ // c2
+@rightPad // c3
+( // c4
+) // c5
+rootA // c6
+@lengthOf( // c7
+trueish // c8
+) // c9
+, // c10
+stringy // c11
+@lengthOf( // c12
+matchKey // c13
+) // c14
+, // c15
+char[ // c16
+4294967296 // c17
+] // c18
+pack // c19
+@lengthOf( // c20
+uint8x // c21
+) // c22
+, // c23
+} // c24
+root // c25
+packet // c26
+trueish // c27
+{ // c28
+repeat // c29
+uint64 // c30
+u128 // c31
+`say ""hi""` // c32
+, // c33
+} // c34
+")).
+Eval vm_compute in ("<<<M371>>>" ++ check (runes_of_ascii "MetaData msg_type {//
+u8
+    // `tick` ""quote"" 'q'
+    Foo `// not a comment` ,char[
+    007] Pad
+`u8 x,`,f32
+    o
+    , char[0123456789]
+falsey ,
+    float64 metadata
+, zchar[0123456789
+] uint8x ,}
+    packet // @lengthOf(
+string_
+{ i16 leftPad `// not a comment` ,
+    }packet //
+zchar {
+MetaDataX @calculatedFrom(""a	b""
+    //	t
+    ) //	t
+`tab	here` ,@tag(255 )string
+    i64_
+// 50% %s
+// 50% %s
+,	}")).
+Eval vm_compute in ("<<<M1156>>>" ++ check (runes_of_ascii "// top
+MetaData // c0
+msg_type // c1
+{ // c2
+int32 // c3
+As // c4
+`crlf
+line` // c5
+, // c6
+MetaDataX // c7
+x // c8
+`a\` // c9
+, // c10
+int8 // c11
+_x // c12
+, // c13
+char[] // c14
+As // c15
+`u8 x,` // c16
+, // c17
+zchar[ // c18
+3 // c19
+] // c20
+uint8x // c21
+, // c22
+As // c23
+Foo // c24
+, // c25
+} // c26
+root // c27
+packet // c28
+repeatCount // c29
+{ // c30
+} // c31
+")).
+Eval vm_compute in ("<<<M234>>>" ++ check (runes_of_ascii "MetaData Header /// triple
+{ As
+options1 `two words` ,u64
+matchKey `100% of %d`
+    ,
+    }
+    root packet _x
+{ @lengthOf( i64_ )A @calculatedFrom(
+    // trailing space 
+    ""{,}"" )	, x matchKey  , o@calculatedFrom( //	t
+""{,}"" )	, @rightPad( '0' )
+@lengthOf(Z9_	)@calculatedFrom(
+    ""a\\"")
+zchar[ 65535
+] Packet @lengthOf(
+    Packet)	,}
+")).
+Eval vm_compute in ("<<<M1886>>>" ++ check (runes_of_ascii "options {
+    LittleEndian
 
-    match
-k as
-n 
-{[	""a"" ,22
+=
+
+true
+	;	}
+    packet Sub
+{
+    u8 
+a ,
+    @calculatedFrom( ""CRC16"" 
+)u64 
+SubSum
+	,
+    }  root
+packet  Frame	{
+	u16
+MsgType
+
+    , u16 BodyLen 
+@lengthOf(  Body
+) ,	Sub
+	Body
+    , string note
 
     ,
+@calculatedFrom(
+""CRC16""
 
-""c c"" 
+)
+	u64 
+Checksum 
+,u8
+tail ,
+
+    }")).
+Eval vm_compute in ("<<<M329>>>" ++ check (runes_of_ascii "packet roots {  pack  ``
+, //	t
+T @lengthOf( tag ) , x{ match len as
+    packetx {	[10] : // c
+rootA ,
+    }, repeat
+string
+leftPad
+`
+` , //	t
+char[ 7 ] Packet
+@calculatedFrom(	""a	b""
+    ) ,
+    char[]
+    uint8x  ``
+// trailing space 
+// a // b
+,} ,
+uint16
+leftPad
 ,
-4 ,
-""e""
-
+}
+")).
+Eval vm_compute in ("<<<M542>>>" ++ check (runes_of_ascii "packet
+    asx { @calculatedFrom(
+""""  ) @tag( 255 )repeat
+// packet A { u8 x, }
+// trailing space 
+int16 u8x
 ,
-66
-,  ""g""  , 8  ,""i"" 
-] 
-: B 2	:C
-    }
-	,}
-")).
-Eval vm_compute in ("<<<M1156>>>" ++ check (runes_of_ascii "MetaData leftPad { chars MetaDataX , }
-// c
-packet repeatCount { char[ 255 ] uint8x `" ++ [233]%N ++ runes_of_ascii "` , } MetaData pack { As Foo , }")).
-Eval vm_compute in ("<<<M1188>>>" ++ check (runes_of_ascii "MetaData leftPad { chars MetaDataX , } packet repeatCount { char[ 255 ] uint8x `" ++ [233]%N ++ runes_of_ascii "` , } MetaData pack { As Foo ,
-// c
-}")).
-Eval vm_compute in ("<<<M925>>>" ++ check (runes_of_ascii "packet A {
-    u16 len @lengthOf(body) `a
-b`,
-    u32 crc @calculatedFrom(""CRC32"") `a
-b`,
-    string body,
-}")).
-Eval vm_compute in ("<<<M1788>>>" ++ check (runes_of_ascii "
-packet
-FooBar{ 
-u8
-a ,}
-	packet
-
-foo_bar
-    { 
-u16
-
-b
-
-,}
-root
-
-packet  R { FooBar
-
-, foo_bar  ,  }
-")).
-Eval vm_compute in ("<<<M1406>>>" ++ check (runes_of_ascii "// top
-packet body {
-    // c2
-    i32 f32a `{ , }`,
-    // c6
-}
-
-// c7
-options {
-    // c9
-}
-// c10")).
-Eval vm_compute in ("<<<M1267>>>" ++ check (runes_of_ascii "packet B {
-    u8 a,
-    string s,
-}
-root packet P {
-    u16 L @lengthOf(B),
-    B,
-    u8 t,
-}
-")).
-Eval vm_compute in ("<<<M635>>>" ++ check (runes_of_ascii "
-packet
-    asx {'1'match u128 as lengthOf
-{
-//	t
+@tag(
+    //
+    007 )
+    @tag( 0
+    /// triple
+    ) @tag( 1) u
+    @lengthOf( T @lengthOf ),
 // `tick` ""quote"" 'q'
-255 : x ,
-    } ,	}")).
-Eval vm_compute in ("<<<M388>>>" ++ check (runes_of_ascii "root packet SimpleMessage {
-    uint16 MsgType `" ++ [28040; 24687; 31867; 22411]%N ++ runes_of_ascii "`,
-    string JsonBody `Json" ++ [23383; 31526; 20018; 28040; 24687; 20307]%N ++ runes_of_ascii "`,
-}")).
-Eval vm_compute in ("<<<M878>>>" ++ check (runes_of_ascii "packet A {
-  match k as n {
-    [1, 22, 007, 4, 5, 66, 7, 8, 9, 10] : B,
-    2 : C
-  },
-}")).
-Eval vm_compute in ("<<<M771>>>" ++ check (runes_of_ascii "true @tag( root : repeat @calculatedFrom( match f64 int32 ] { zchar[ packet @lengthOf(")).
-Eval vm_compute in ("<<<M1442>>>" ++ check (runes_of_ascii "packet A {
+//x
+} // " ++ [128512]%N ++ runes_of_ascii " emoji")).
+Eval vm_compute in ("<<<M1402>>>" ++ check (runes_of_ascii "packet Sub
+    { u8
+
+    a 
+,@calculatedFrom( ""CRC16"" 
+) 
+i64
+
+SubSum ,}
+
+root	packet Frame
+
+{
+
+u16 MsgType
+	,u16
+BodyLen @lengthOf(	Body	),	Sub 
+Body
+    , string note
+
+    ,  @calculatedFrom(
+    ""CRC16""
+)
+
+i64 Checksum  ,u8 tail  ,}
+")).
+Eval vm_compute in ("<<<M543>>>" ++ check (runes_of_ascii "packet
+    asx { @calculatedFrom(
+""""  ) @tag( 255 )repeat
+// packet A { u8 x, }
+// trailing space 
+int16 u8x
+,
+@tag(
+    //
+    007 )
+    @tag( 0
+    /// triple
+    " ++ [65279]%N ++ runes_of_ascii ") @tag( 1) u
+    @lengthOf( T ),
+// `tick` ""quote"" 'q'
+//x
+} // " ++ [128512]%N ++ runes_of_ascii " emoji")).
+Eval vm_compute in ("<<<M513>>>" ++ check (runes_of_ascii "packet
+    asx { @calculatedFrom(
+""""  ) @tag( 255 )repeat
+// packet A { u8 x, }
+// trailing space 
+int16 u8x
+,
+@tag(
+    //
+    007 )
+    @tag( 0
+    /// triple
+    ) @tag( 1) u
+    @lengthOf( T ,)
+// `tick` ""quote"" 'q'
+//x
+} // " ++ [128512]%N ++ runes_of_ascii " emoji")).
+Eval vm_compute in ("<<<M451>>>" ++ check (runes_of_ascii "packet
+    asx { @calculatedFrom(
+""""  ) @tag( 255 )repeat
+// packet A { u8 x, }
+// trailing space 
+int16 u8x
+,
+
+    //
+    007 )
+    @tag( 0
+    /// triple
+    ) @tag( 1) u
+    @lengthOf( T ),
+// `tick` ""quote"" 'q'
+//x
+} // " ++ [128512]%N ++ runes_of_ascii " emoji")).
+Eval vm_compute in ("<<<M1339>>>" ++ check (runes_of_ascii "
+packet
+Logon
+	{  string
+user,	}
+    root  packet
+Frame
+{u8 K ,match
+
+K
+as	Body
+	{
+
+1
+:	Logon,  2
+    : Logout
+,
+
+    }
+
+,
+    Tail,
+    }
+    packet
+Logout {u16
+reason
+
+,
+}
+    packet  Tail
+
+{  u32 crc  , }
+
+")).
+Eval vm_compute in ("<<<M279>>>" ++ check (runes_of_ascii "MetaData zchar { }
+packet
+i8i8
+    { @calculatedFrom(""\n"") i8 tag@lengthOf(Packet)
+    // " ++ [128512]%N ++ runes_of_ascii " emoji
+    , lengthOf{	char[] leftPad
+`{ , }`  , i32 crc @calculatedFrom(  ""a\\"" /// triple
+)
+, },
+}
+")).
+Eval vm_compute in ("<<<M1267>>>" ++ check (runes_of_ascii "// top
+root
+    // c0
+packet
+    // c1
+P // c2
+{ // c3
+hdr {
+    // c5
+u8 // c6
+a // c7a
+  // c7b
+, } ,
+    // c10
+u8 // c11a
+  // c11b
+x // c12a
+  // c12b
+, // c13a
+  // c13b
+} ")).
+Eval vm_compute in ("<<<M647>>>" ++ check (runes_of_ascii "MetaData u
+    { } MetaData o
+{ float uint8x
+`100% of %d` ,repeatCount u8x, string_ leftPad
+, i32
+    Foo , int64 int64 x `two words` , calculatedFrom
+stringy `a\` ,
+}
+")).
+Eval vm_compute in ("<<<M642>>>" ++ check (runes_of_ascii "MetaData u
+    { } MetaData o
+{ float uint8x
+`100% of %d` ,repeatCount u8x, string_ leftPad
+, i32
+    Foo , , int64 x `two words` , calculatedFrom
+stringy `a\` ,
+}
+")).
+Eval vm_compute in ("<<<M568>>>" ++ check (runes_of_ascii "MetaData u
+    { } o MetaData
+{ float uint8x
+`100% of %d` ,repeatCount u8x, string_ leftPad
+, i32
+    Foo , int64 x `two words` , calculatedFrom
+stringy `a\` ,
+}
+")).
+Eval vm_compute in ("<<<M561>>>" ++ check (runes_of_ascii "MetaData u
+    {  MetaData o
+{ float uint8x
+`100% of %d` ,repeatCount u8x, string_ leftPad
+, i32
+    Foo , int64 x `two words` , calculatedFrom
+stringy `a\` ,
+}
+")).
+Eval vm_compute in ("<<<M1562>>>" ++ check (runes_of_ascii "packet A {
     match k as n {
-        [""a"", 22, ""c c""] : B,
+        [
+            1, ""bb"", 007, ""d"", 5,
+            ""f"", 7, ""h"", 9, ""j"",
+            11
+        ] : B,
         2 : C,
     },
 }")).
-Eval vm_compute in ("<<<M972>>>" ++ check (runes_of_ascii "packet A {
-    u32 crc @calculatedFrom(""\
-""),
-    @calculatedFrom(""\
-"") u8 y,
-}")).
-Eval vm_compute in ("<<<M818>>>" ++ check (runes_of_ascii "packet A {
-  match k as n {
-    [1, ""bb"", 007, ""d"", 5] : B
-    2 : C
-  },
-}")).
-Eval vm_compute in ("<<<M814>>>" ++ check (runes_of_ascii "packet A {
-  match k as n {
-    [1, 22, 007, 4, 5] : B
-    2 : C
-  },
-}")).
-Eval vm_compute in ("<<<M1290>>>" ++ check (runes_of_ascii "root packet P {
-    u8 s_u8,
-    repeat u8 r_u8,
-    u16 b_len,
-}
-")).
-Eval vm_compute in ("<<<M189>>>" ++ check (runes_of_ascii "
-packet
-i64_ { @tag( 0123456789 ) repeat u16 stringy
-,
-    }")).
-Eval vm_compute in ("<<<M1088>>>" ++ check (runes_of_ascii "packet A { @tag(1) // a
- @leftPad('0') // b
- char[4] x, }")).
-Eval vm_compute in ("<<<M159>>>" ++ check (runes_of_ascii "root packet x  { roots @calculatedFrom(""a\""b"" ) , }")).
-Eval vm_compute in ("<<<M333>>>" ++ check (runes_of_ascii "  MetaData
-x_y_z{ }	packet chars	{	} options {}
-")).
-Eval vm_compute in ("<<<M957>>>" ++ check (runes_of_ascii "MetaData M {
-    u8 x `
-x`,
-    T t `
-x`,
-}")).
-Eval vm_compute in ("<<<M325>>>" ++ check (runes_of_ascii "packet charz { } // packet A { u8 x, }")).
-Eval vm_compute in ("<<<M54>>>" ++ check (runes_of_ascii "options
-{ T= '0' ;A= u8 ;
-    } 	 ")).
-Eval vm_compute in ("<<<M753>>>" ++ check (runes_of_ascii ":l" ++ [65533; 23]%N ++ runes_of_ascii "9" ++ [65533; 1549]%N ++ runes_of_ascii "F" ++ [65533; 65533; 65533; 65533]%N ++ runes_of_ascii "j)" ++ [65533; 65533; 27; 25; 65533; 65533; 261; 14; 65533]%N ++ runes_of_ascii "V" ++ [65533; 65533]%N ++ runes_of_ascii "4b-" ++ [65533; 65533]%N)).
-Eval vm_compute in ("<<<M175>>>" ++ check (runes_of_ascii "
-packet calculatedFrom { } 	 ")).
-Eval vm_compute in ("<<<M713>>>" ++ check (runes_of_ascii "// @lengthOf(
-packet i8i8")).
-Eval vm_compute in ("<<<M1938>>>" ++ check (runes_of_ascii "
-packet  A { }
+Eval vm_compute in ("<<<M188>>>" ++ check (runes_of_ascii "// `tick` ""quote"" 'q'
+options
+    //	t
+    { metadata  = ""abc"" // `tick` ""quote"" 'q'
+a1  = true
+// a // b
+// " ++ [27880; 37322]%N ++ runes_of_ascii "
+; }
+MetaData
+falsey
+{ char[]
+Logon ,}")).
+Eval vm_compute in ("<<<M1820>>>" ++ check (runes_of_ascii "
+packet 
+A
 
-// c" ++ [5760]%N ++ runes_of_ascii "
-")).
-Eval vm_compute in ("<<<M1061>>>" ++ check (runes_of_ascii "packet A {
+{
+
+match
+
+    k
+
+    as n{
+[
+1  , 22  ,
+""c c""	, 
+4
+
+    ,
+5	,
+
+    ""f"" , 7 ,
+
+8
+,
+	""i"" ]  :B
+
+,	2	:
+
+C
+
+    }
+    ,
 }
-// c x")).
-Eval vm_compute in ("<<<M1012>>>" ++ check (runes_of_ascii "// c" ++ [8232]%N ++ runes_of_ascii "
+
+")).
+Eval vm_compute in ("<<<M1652>>>" ++ check (runes_of_ascii "
+
+  packet
+	A{
+	match
+k
+
+as n
+{ [
+
+    ""a"" 
+,
+
+    22 ,
+""c c""
+
+    ,	4
+
+, ""e"" , 66
+
+,""g""
+,
+8  , ""i""
+    ] :
+	B ,
+2  : C } ,}
+
+")).
+Eval vm_compute in ("<<<M1507>>>" ++ check (runes_of_ascii "// c
+options {
+}
+
+options {
+    MetaDataX = char;
+}
+
+MetaData Pad {
+    i8 metadata,
+    string stringy,
+    int8 As `{ , }`,
+}")).
+Eval vm_compute in ("<<<M936>>>" ++ check (runes_of_ascii "packet A {
+    Inner {
+        u8 x `a
+    b
+  c`,
+        Deep {
+            u8 y `a
+    b
+  c`,
+        },
+    },
+}")).
+Eval vm_compute in ("<<<M1215>>>" ++ check (runes_of_ascii "options { } options { MetaDataX = // c
+char ; } MetaData Pad { i8 metadata , string stringy , int8 As `{ , }` , }")).
+Eval vm_compute in ("<<<M1247>>>" ++ check (runes_of_ascii "options { } options { MetaDataX = char ; } MetaData Pad { i8 metadata , string stringy , int8 As `{ , }` , // c
+}")).
+Eval vm_compute in ("<<<M879>>>" ++ check (runes_of_ascii "packet A {
+  match k as n {
+    [""a"", ""bb"", ""c c"", ""d"", ""e"", ""f"", ""g"", ""h"", ""i"", ""j""] : B
+    2 : C
+  },
+}")).
+Eval vm_compute in ("<<<M1804>>>" ++ check (runes_of_ascii "packet  A	{ 
+Inner 
+{
+
+u8
+    x  `100% of %s %d %v` 
+, Deep
+{  u8 y`100% of %s %d %v`  ,
+	}  ,
+
+}	,}
+")).
+Eval vm_compute in ("<<<M880>>>" ++ check (runes_of_ascii "packet A {
+  match k as n {
+    [1, ""bb"", 007, ""d"", 5, ""f"", 7, ""h"", 9, ""j""] : B,
+    2 : C
+  },
+}")).
+Eval vm_compute in ("<<<M885>>>" ++ check (runes_of_ascii "packet A {
+  match k as n {
+    [1, 22, ""c c"", 4, 5, ""f"", 7, 8, ""i"", 10] : B
+    2 : C
+  },
+}")).
+Eval vm_compute in ("<<<M1768>>>" ++ check (runes_of_ascii "
+packet
+	orderItem{
+
+    u8 a
+,
+
+    }root  packet newOrder{	orderItem ,
+u8 x , }
+")).
+Eval vm_compute in ("<<<M753>>>" ++ check (runes_of_ascii "} @tag( string zchar[ float32 f64 @calculatedFrom( i8 lengthOf ) u64 ' ' uint8 @tag(")).
+Eval vm_compute in ("<<<M1316>>>" ++ check (runes_of_ascii "packet orderItem {
+    u8 a,
+}
+root packet newOrder {
+    orderItem,
+    u8 x,
+}
+")).
+Eval vm_compute in ("<<<M824>>>" ++ check (runes_of_ascii "packet A {
+  match k as n {
+    [1, 22, 007, 4, 5, 66] : B,
+    2 : C
+  },
+}")).
+Eval vm_compute in ("<<<M803>>>" ++ check (runes_of_ascii "packet A {
+  match k as n {
+    [1, ""bb"", 007, ""d""] : B
+    2 : C
+  },
+}")).
+Eval vm_compute in ("<<<M1617>>>" ++ check (runes_of_ascii "packet
+	leftPad
+	{	i16 charz// trailing space 
+	,// @lengthOf(
+  }
+")).
+Eval vm_compute in ("<<<M118>>>" ++ check (runes_of_ascii "MetaData i64_ { zchar[ // " ++ [27880; 37322]%N ++ runes_of_ascii "
+0123456789 ]
+    i8i8
+    `" ++ [233]%N ++ runes_of_ascii "`,  }")).
+Eval vm_compute in ("<<<M1266>>>" ++ check (runes_of_ascii "root packet P {
+    hdr {
+        u8 a,
+    },
+    u8 x,
+}
+")).
+Eval vm_compute in ("<<<M64>>>" ++ check (runes_of_ascii "options	{
+    BodyLength=
+true ;string_= false ;	} 	 ")).
+Eval vm_compute in ("<<<M925>>>" ++ check (runes_of_ascii "MetaData M {
+    u8 x `a
+b`,
+    T t `a
+b`,
+}")).
+Eval vm_compute in ("<<<M938>>>" ++ check (runes_of_ascii "root packet A {
+    u8 x `a
+    b
+  c`,
+}")).
+Eval vm_compute in ("<<<M1094>>>" ++ check (runes_of_ascii "MetaData M {
+}// c
+MetaData N {
+}// d")).
+Eval vm_compute in ("<<<M30>>>" ++ check (runes_of_ascii "
+root packet Pad
+{
+char[] i8i8 , }")).
+Eval vm_compute in ("<<<M950>>>" ++ check (runes_of_ascii "root packet A {
+    u8 x `x
+`,
+}")).
+Eval vm_compute in ("<<<M1027>>>" ++ check (runes_of_ascii "packet A {
+ u8 x `d" ++ [8202]%N ++ runes_of_ascii "`, // c" ++ [8202]%N ++ runes_of_ascii "
+}")).
+Eval vm_compute in ("<<<M945>>>" ++ check (runes_of_ascii "packet A {
+    u8 x `x
+`,
+}")).
+Eval vm_compute in ("<<<M1141>>>" ++ check (runes_of_ascii "// c
+root packet a1 { }")).
+Eval vm_compute in ("<<<M1665>>>" ++ check (runes_of_ascii "  packet  x // c
+{}
+")).
+Eval vm_compute in ("<<<M1041>>>" ++ check (runes_of_ascii "// c" ++ [8239]%N ++ runes_of_ascii "
 packet A {
 }")).
-Eval vm_compute in ("<<<M984>>>" ++ check (runes_of_ascii "packet A {
-}// c" ++ [160]%N)).
-Eval vm_compute in ("<<<M378>>>" ++ check (runes_of_ascii "// @lengthOf(
-
-")).
-Eval vm_compute in ("<<<M29>>>" ++ check (runes_of_ascii "// " ++ [27880; 37322]%N ++ runes_of_ascii "
-
-")).
-Eval vm_compute in ("<<<M56>>>" ++ check (runes_of_ascii " 	 ")).
+Eval vm_compute in ("<<<M1033>>>" ++ check (runes_of_ascii "packet A {
+}// c" ++ [8233]%N)).
+Eval vm_compute in ("<<<M400>>>" ++ check (runes_of_ascii "packet
+    asx")).
+Eval vm_compute in ("<<<M1009>>>" ++ check (runes_of_ascii "// c" ++ [133]%N)).
+Eval vm_compute in ("<<<M160>>>" ++ check (@nil rune)).
